@@ -23,7 +23,9 @@ import (
 	"reflect"
 
 	extv1 "k8s.io/apiextensions-apiserver/pkg/apis/apiextensions/v1"
+	metav1 "k8s.io/apimachinery/pkg/apis/meta/v1"
 	"k8s.io/apimachinery/pkg/apis/meta/v1/unstructured"
+	"k8s.io/apimachinery/pkg/runtime/schema"
 	"k8s.io/apimachinery/pkg/runtime"
 	"k8s.io/apimachinery/pkg/types"
 	"sigs.k8s.io/controller-runtime/pkg/reconcile"
@@ -34,6 +36,8 @@ import (
 	"github.com/crossplane/crossplane/internal/xcrd"
 )
 
+var c11XRDGK = schema.GroupKind{Group: v1.Group, Kind: v1.CompositeResourceDefinitionKind}
+
 type c11Recon struct {
 	// the earlier state of the XRD the stored CRDs were derived from; nil: no CRD stored yet
 	Prev *c11XrdS `json:"prev"`
@@ -41,6 +45,16 @@ type c11Recon struct {
 	ExtraLabels      map[string]string `json:"extraLabels"`
 	ExtraAnnotations map[string]string `json:"extraAnnotations"`
 	Rounds           int               `json:"rounds"` // reconciles per reconciler (1..2)
+	// status.conditions of the stored CRDs as (type, status) pairs, in order; nil = [Established True]
+	StoredConds [][]string `json:"storedConds"`
+	// owner references of the stored CRDs: "controller" (the derived controller reference; "" means
+	// this), "none" (restored from a backup, orphaned, reference removed by hand), "plain" (an owner
+	// reference to the XRD that is not a controller reference)
+	StoredOwners string `json:"storedOwners"`
+	// Live: the stored CRDs are not seeded; instead the SAME long-lived reconcilers first reconcile
+	// the earlier XRD `prev` (same name, same generation, another UID), then that XRD and its CRDs are
+	// deleted and the current XRD is created under the same name
+	Live bool `json:"live"`
 }
 
 type c11ReconRound struct {
@@ -53,9 +67,26 @@ type c11ReconObs struct {
 	Offered    []c11ReconRound `json:"offered"` // empty when the XRD offers no claim
 }
 
-func c11Established(crd *extv1.CustomResourceDefinition) {
-	crd.Status.Conditions = []extv1.CustomResourceDefinitionCondition{{Type: extv1.Established, Status: extv1.ConditionTrue, Reason: "InitialNamesAccepted"}}
+func c11Established(crd *extv1.CustomResourceDefinition, conds [][]string) {
+	crd.Status.Conditions = nil
+	for _, c := range conds {
+		if len(c) == 2 {
+			crd.Status.Conditions = append(crd.Status.Conditions, extv1.CustomResourceDefinitionCondition{
+				Type: extv1.CustomResourceDefinitionConditionType(c[0]), Status: extv1.ConditionStatus(c[1]), Reason: "Verif"})
+		}
+	}
 	crd.Status.AcceptedNames = crd.Spec.Names
+}
+
+// c11IsEst is the harness's own reading of "the API server serves this CRD": the FIRST condition of
+// type Established has status True (independent of xcrd.IsEstablished, which is under test).
+func c11IsEst(crd *extv1.CustomResourceDefinition) bool {
+	for _, c := range crd.Status.Conditions {
+		if c.Type == extv1.Established {
+			return c.Status == extv1.ConditionTrue
+		}
+	}
+	return false
 }
 
 // c11StoredCRD reads the stored CRD back as the typed object.
@@ -157,7 +188,47 @@ func c11RunRecon(x c11XrdS, rc c11Recon) (c11ReconObs, []Mon) {
 	xrd := c11Build(x)
 	xrd.SetGroupVersionKind(v1.CompositeResourceDefinitionGroupVersionKind)
 	st.Seed(xrd)
-	if rc.Prev != nil {
+	req := reconcile.Request{NamespacedName: types.NamespacedName{Name: x.Name}}
+	// the reconcilers live as long as the process: one instance each for the whole scenario
+	recs := map[string]reconcile.Reconciler{
+		"xr":    definition.NewReconciler(definition.NewClientApplicator(st)),
+		"claim": offered.NewReconciler(offered.NewClientApplicator(st)),
+	}
+	if rc.Live && rc.Prev != nil {
+		// an earlier XRD of the same name and generation (another UID), reconciled by the same
+		// reconcilers until its CRDs are established, then deleted together with its CRDs
+		p := c11CloneXrd(*rc.Prev)
+		p.Meta = nil
+		p.Name, p.UID = x.Name, x.UID+"-earlier"
+		st.Remove(c11XRDGK, "", x.Name)
+		pxrd := c11Build(p)
+		pxrd.SetGroupVersionKind(v1.CompositeResourceDefinitionGroupVersionKind)
+		pxrd.SetGeneration(1)
+		st.Seed(pxrd)
+		for _, which := range []string{"xr", "claim"} {
+			if which == "claim" && p.ClaimNames == nil {
+				continue
+			}
+			for i := 0; i < 2; i++ {
+				_ = Guard(func() { _, _ = recs[which].Reconcile(context.Background(), req) })
+				if crd, err := c11Derive(p, which); err == nil && crd.GetName() != "" && st.Peek(c11CRDGK, "", crd.GetName()) != nil {
+					st.Mutate(c11CRDGK, "", crd.GetName(), func(u *unstructured.Unstructured) {
+						_ = unstructured.SetNestedSlice(u.Object, []any{map[string]any{"type": "Established", "status": "True", "reason": "InitialNamesAccepted"}}, "status", "conditions")
+					})
+				}
+			}
+		}
+		for _, u := range st.OfKind(c11CRDGK) {
+			st.Remove(c11CRDGK, "", u.GetName())
+		}
+		// the new XRD of that name reaches the generation the earlier one had when it was last reconciled
+		if u := st.Peek(c11XRDGK, "", x.Name); u != nil && u.GetGeneration() > 0 {
+			xrd.SetGeneration(u.GetGeneration())
+		}
+		st.Remove(c11XRDGK, "", x.Name)
+		st.Seed(xrd)
+	}
+	if rc.Prev != nil && !rc.Live {
 		p := c11CloneXrd(*rc.Prev)
 		p.Meta = nil
 		for _, which := range []string{"xr", "claim"} {
@@ -184,7 +255,13 @@ func c11RunRecon(x c11XrdS, rc c11Recon) (c11ReconObs, []Mon) {
 				a[k] = v
 			}
 			crd.SetAnnotations(a)
-			c11Established(crd)
+			c11Established(crd, rc.StoredConds)
+			switch rc.StoredOwners {
+			case "none":
+				crd.SetOwnerReferences(nil)
+			case "plain":
+				crd.SetOwnerReferences([]metav1.OwnerReference{{APIVersion: v1.SchemeGroupVersion.String(), Kind: v1.CompositeResourceDefinitionKind, Name: p.Name, UID: types.UID(p.UID)}})
+			}
 			crd.SetGroupVersionKind(extv1.SchemeGroupVersion.WithKind("CustomResourceDefinition"))
 			st.Seed(crd)
 		}
@@ -196,7 +273,6 @@ func c11RunRecon(x c11XrdS, rc c11Recon) (c11ReconObs, []Mon) {
 	if rounds > 2 {
 		rounds = 2
 	}
-	req := reconcile.Request{NamespacedName: types.NamespacedName{Name: x.Name}}
 	run := func(which string, rec reconcile.Reconciler) []c11ReconRound {
 		out := []c11ReconRound{}
 		for i := 0; i < rounds; i++ {
@@ -229,9 +305,14 @@ func c11RunRecon(x c11XrdS, rc c11Recon) (c11ReconObs, []Mon) {
 					}
 					if stored != nil {
 						rd.Crd = c11Project(stored)
+						// the reconciler goes on to start the controller for the CRD's kind only once the API
+						// server serves the CRD (xcrd.IsEstablished); until then it must come back
+						if rd.Res == "ok" && !c11IsEst(stored) {
+							mons = append(mons, Mon{Sig: "C11:reconciler-ignores-establishment", Why: fmt.Sprintf("the %s reconciler finished (no requeue) although the stored CRD %s is not established: conditions %s", which, want.GetName(), mustJSON(stored.Status.Conditions))})
+						}
 					}
 					// the API server establishes the CRD before the next reconcile
-					if stored != nil && !xcrd.IsEstablished(stored.Status) {
+					if stored != nil && !c11IsEst(stored) {
 						st.Mutate(c11CRDGK, "", want.GetName(), func(u *unstructured.Unstructured) {
 							_ = unstructured.SetNestedSlice(u.Object, []any{map[string]any{"type": "Established", "status": "True", "reason": "InitialNamesAccepted"}}, "status", "conditions")
 						})
@@ -242,9 +323,9 @@ func c11RunRecon(x c11XrdS, rc c11Recon) (c11ReconObs, []Mon) {
 		}
 		return out
 	}
-	obs.Definition = run("xr", definition.NewReconciler(definition.NewClientApplicator(st)))
+	obs.Definition = run("xr", recs["xr"])
 	if x.ClaimNames != nil {
-		obs.Offered = run("claim", offered.NewReconciler(offered.NewClientApplicator(st)))
+		obs.Offered = run("claim", recs["claim"])
 	}
 	return obs, mons
 }
